@@ -272,7 +272,8 @@ def builder_handles_know_their_outputs():
         if_.set_outputs(*if_.inputs()[:k])
         else_ = if_.add_else()
         else_.set_outputs(*else_.inputs()[:k])
-        n = else_.conditional_node
+        # (the finished conditional's handle, asked of either of the two builder objects)
+        n = else_.conditional_node if sym.concretize(sym.bool("handle_from_else_builder")) else if_.conditional_node
     elif how == 10:
         with d.add_tail_loop([a], [b, b][:k]) as tl:
             brk = tl.add_op(ops.Tag(1, tys.Sum([[Bo], []])))
